@@ -203,12 +203,28 @@ impl LruManager {
         let data = serialize(&self.header, &self.entries);
         let path = lru_file_path(&self.data_dir, self.generation);
 
-        tokio::fs::write(&path, &data).await.map_err(|e| {
-            crate::StorageError::Cache(format!(
+        // Write to a temporary file, sync it, then rename it into place: the
+        // generation file appears atomically and with its complete content, so a
+        // crash during a checkpoint leaves either the previous checkpoint or the
+        // new one (recovery loads the highest generation it finds). The temporary
+        // name is not a valid generation filename and is ignored by loads.
+        let temp_path = path.with_extension("lru.tmp");
+        let write_result = async {
+            use tokio::io::AsyncWriteExt;
+            let mut file = tokio::fs::File::create(&temp_path).await?;
+            file.write_all(&data).await?;
+            file.sync_all().await?;
+            drop(file);
+            tokio::fs::rename(&temp_path, &path).await
+        }
+        .await;
+        if let Err(e) = write_result {
+            let _ = tokio::fs::remove_file(&temp_path).await;
+            return Err(crate::StorageError::Cache(format!(
                 "failed to write LRU checkpoint to {}: {e}",
                 path.display()
-            ))
-        })?;
+            )));
+        }
 
         debug!(
             "LRU checkpoint: generation {} -> {}",
